@@ -296,8 +296,6 @@ def check_redef(case):
             cc.kuBot, cc.kphixTop = 2.0e6, 7.0e2
         elif c == 'loads':
             cc.Fc, cc.P, cc.T = 2.5e3, -1.0e4, 12.0
-            cc.Nxxtop = None
-            cc._load_rebuilt = False
         elif c == 'orders':
             cc.m2, cc.n2 = 3, 3
 
